@@ -1,7 +1,7 @@
 """C08 — literal text and '-' markers (narrow): C08.TRIM (typestate of the carried trim flag),
 C08.PEEK (the end-trim peek pattern covers every start token), C08.TEXT (text flows untransformed)."""
 from engine import (Tracer, EdgeFacts, find_aggs, find_calls, pl_str, pl_projs, TRANSPARENT_CALLS,
-                    callee_name, leaf_str, leaf_call_is, AnchorMissing)
+                    callee_name, callee_def, leaf_str, leaf_call_is, AnchorMissing)
 
 EXPLANATION = (
     "Decides structural clauses of C08 on the type-checked MIR of parsing::lexer / parser / compiler: "
@@ -40,6 +40,18 @@ def trim_typestate(body, flag_str, rep):
     def transfer_block(bb, st):
         for s in body.blocks[bb]["s"]:
             if s["k"] == "assign" and pl_str(s["pl"]) == flag_str:
+                st = frozenset("W")
+        # `std::mem::replace(&mut flag, v)` / `mem::take(&mut flag)`: the flag is read out and overwritten in one step
+        t = body.term(bb)
+        if t["k"] == "call" and callee_def(t) in ("std::mem::replace", "std::mem::take") and t["args"] and t["args"][0]["k"] in ("copy", "move"):
+            def refs_flag(l, depth=0):
+                for (b2, i2, dp, rv) in body.defs.get(l, []):
+                    if rv["k"] == "ref" and pl_str(rv["pl"]) == flag_str:
+                        return True
+                    if rv["k"] == "ref" and pl_projs(rv["pl"]) == ["deref"] and depth < 4 and refs_flag(rv["pl"]["l"], depth + 1):
+                        return True       # reborrow `&mut *r`
+                return False
+            if refs_flag(t["args"][0]["pl"]["l"]):
                 st = frozenset("W")
         return st
 
